@@ -1,16 +1,27 @@
 #!/bin/sh
-# Build the framework from files on disk only (offline): Lean library + driver, harness.
+# Build the framework from files on disk only (offline): harness from /repo's working tree,
+# ChfVerif/Gen regenerated from it, then the Lean library + driver.
 set -e
 cd "$(dirname "$0")"
 export GOFLAGS=-mod=mod GOPROXY=off GOSUMDB=off GOTOOLCHAIN=local
-(cd lean && lake build ChfVerif driver)
 python3 - <<'PY'
 import sys, os
 sys.path.insert(0, os.path.join(os.getcwd(), "lib"))
-from chk import core
+from chk import core, props
 h, err = core.build_harness()
 if h is None:
     print(err)
     sys.exit(1)
 print("harness:", h)
+ctx = core.Ctx("C01", "quick", 1)
+ctx.harness = h
+done = set()
+for pid, spec in sorted(props.PROPS.items()):
+    for g in spec.get("gen", []):
+        key = getattr(g, "key", None) or id(g)
+        if key in done:
+            continue
+        done.add(key)
+        g(ctx)
 PY
+(cd lean && lake build ChfVerif driver)
